@@ -818,9 +818,10 @@ func TestC07(t *testing.T) {
 	runGenericProperty(t, "C07", "same runs as C06 plus cleanup controllers (RemoveOutputs, HasNoOutputs, Combine of two HasNoOutputs handlers with dependents vanishing in either order); a recording proxy around the CoreState yields the totally ordered log of committed writes; the monitor checks on every prefix: an owned output implies its input exists and carries the controller's finalizer, "+
 		"the controller removes its finalizer only when the output is gone, destroys outputs only when marked tearing down with no finalizers, and a cleanup controller releases its finalizer only when no dependent output exists; "+
 		"plus gated schedules: qtransform.QController.Reconcile is called directly on the real qruntime adapter with every runtime call held at a gate, arbitrary store operations of other parties (incl. ones the assumptions exclude) placed between any two calls, transform faults injected; "+
-		"the schedule, the kind of every runtime call, the reconcile result and the final store are replayed on GenCtl.q_step; the same for cleanup.Controller.Run with HasNoOutputs handlers (single and combined) against Cleanup.c_step", func(rep *Report, dir string) {
+		"the schedule, the kind of every runtime call, the reconcile result and the final store are replayed on GenCtl.q_step; the same for cleanup.Controller.Run with HasNoOutputs handlers (single and combined) against Cleanup.c_step, and for transform.Controller.Run with input finalizers against Transform.t_step", func(rep *Report, dir string) {
 			gatedQPhase(t, "C07")(rep, dir)
 			gatedCleanupPhase(t)(rep, dir)
+			gatedTransformPhase(t)(rep, dir)
 		})
 }
 
